@@ -211,4 +211,28 @@ theorem lex_pieces {inp : Array UInt8} : ∀ (ps : List Piece) (p : Nat) (w : In
 
 end
 
+/-- every piece spells at least one byte: the fuel of `lexAll` (7 per byte + 8) covers the two
+    transitions a token needs -/
+theorem adj_length : (ps : List Piece) → (tail : Bytes) → Adj ps tail → ps.length ≤ (spell ps).length
+  | [], _, _ => Nat.le_refl _
+  | .sp :: r, tail, h => by
+    have := adj_length r tail h
+    simp only [List.length_cons, spell]; omega
+  | .tok t :: r, tail, h => by
+    have := adj_length r tail h.2
+    have hne := tokOk_ne h.1
+    have : 0 < t.val.length := List.length_pos_iff.mpr hne
+    simp only [List.length_cons, spell, List.length_append]; omega
+
+/-- `lexExpr` on the spelling of a piece list -/
+theorem lexAll_pieces (T : LexTableOK) (ps : List Piece) (ha : Adj ps [])
+    (hc : chainOK .tInvalid (typs (unsp ps)) = true) :
+    lexAll (spell ps) true = .items (emitAll 0 ps) := by
+  unfold lexAll
+  rw [initLexer_eq]
+  have hl := adj_length ps [] ha
+  have := lex_pieces T (inp := (spell ps).toArray) ps 0 0 Item.zero #[] (fuelFor (spell ps).length)
+    (inpAt_zero _) ha hc (by unfold fuelFor; omega)
+  simpa using this
+
 end SoyVerif.Lemmas.LexPrint
